@@ -124,6 +124,19 @@ func init() {
 				runs = *flagRuns
 			}
 			fanOut(a, b.plain, false, baseArgs(s, b), runs, numWorkers(), s.procs)
+			if *flagMode == "" && len(a.fails) == 0 {
+				// Histories that are the first thing their process does, compared with
+				// the steps alone run in another fresh process (what the library keeps
+				// per process is invisible to a reference computed in the same process).
+				xruns := int64(1600)
+				if tier == "thorough" {
+					xruns = 60000
+				}
+				if *flagRuns > 0 && *flagRuns < xruns {
+					xruns = *flagRuns
+				}
+				fanOut(a, b.plain, false, append(baseArgs(s, b), "-mode", "xproc"), xruns, numWorkers(), s.procs)
+			}
 		},
 	}
 }
